@@ -80,3 +80,10 @@ package expiration
 // ---- lock discipline (C20) ---------------------------------------------------------------------
 //@ guarded bucket.data by mtx
 //@ guarded pqList.pq, buckets by mtx
+
+// C04: a timeout is filed under, and cancelled in, the bucket of its deadline rounded to the second -- the SAME rounding on
+// both sides, so that cancelling finds what inserting stored
+//@ callsite (*pqList).delete -> (*bucket).delete(b *bucket, v interface{}, d time.Time)
+//@   requires tround(expireAt) in pq.buckets && b == pq.buckets[tround(expireAt)] && v == id && d == expireAt
+//@ callsite (*pqList).insert -> (*bucket).put(b *bucket, v interface{}, d time.Time)
+//@   requires tround(expireAt) in pq.buckets && b == pq.buckets[tround(expireAt)] && v == id && d == expireAt
